@@ -113,6 +113,14 @@ impl SizeTrigger {
     }
 }
 
+#[cfg(feature = "verif_hooks")]
+impl SizeTrigger {
+    /// The configured limit in bytes.
+    pub fn verif_limit(&self) -> u64 {
+        self.limit
+    }
+}
+
 impl Trigger for SizeTrigger {
     fn trigger(&self, file: &LogFile) -> anyhow::Result<bool> {
         Ok(file.len_estimate() > self.limit)
